@@ -1,4 +1,5 @@
-"""C06, C08, C19 (and the veto / drop part of C07): Relay.tla, MC_Relay.tla, Trace_Relay.tla."""
+"""C06, C07, C08, C19: Relay.tla, MC_Relay.tla, Gen_Fault.tla, Trace_Relay.tla."""
+import os
 import recorded, vlib
 
 WRAP = '''---- MODULE %(name)s ----
@@ -63,14 +64,39 @@ class Relay(recorded.Module):
                            updater="pa"))
         else:
             cfgs.append(mc("MCR_2c3p1r", workers=8))
+        if prop == "C07":
+            cfgs = [c for c in cfgs]   # same interleaving model: failures (PluginClosed at any moment) and vetoes
         if prop in ("C08", "REL"):
             # vacuity guard: a runtime that forgets the sync blocks must break ExactlyOnce in the model
             cfgs.append(mc("MCR_noblocks", workers=4, expect="ExactlyOnce", blocks="FALSE", props=""))
         return cfgs
 
+    def prepare(self, prop, tier, sd, sc):
+        self.fault_file = None
+        if prop not in ("C07", "REL"):
+            return 0, 0
+        th = tier == "thorough"
+        offs = "0..200" if th else "{0, 3, 8, 12, 18, 25, 40, 80}"
+        cfg = "SPECIFICATION GSpec\nCONSTANTS\n  Offsets = %s\n  Slow = %s\nCHECK_DEADLOCK FALSE\n" % (
+            offs, "TRUE" if th else "FALSE")
+        rc, out = vlib.run_tlc(sc.sub("gen-fault"), "Gen_Fault", cfg, workers=2, timeout=600)
+        if "No error has been found" not in out:
+            raise vlib.ToolFailure("Gen_Fault failed:\n" + vlib.tlc_error_excerpt(out))
+        cases = sorted(set(vlib.tlc_tagged(out, "CASE")))
+        self.fault_file = sc.path("faults.ndjson")
+        with open(self.fault_file, "w") as f:
+            f.write("\n".join(cases) + "\n")
+        self.fault_count = len(cases)
+        gen, dist = vlib.tlc_counts(out)
+        return dist, gen
+
     def recordings(self, prop, tier, sd):
         th = tier == "thorough"
         recs = []
+        if prop in ("C07", "REL"):
+            recs.append(("faults", ["faults", "-in", self.fault_file, "-seed", sd]))
+            recs.append(("drops", ["relay", "-seed", sd + 7, "-runs", 150 if th else 40, "-plugins", 5, "-callers", 3,
+                                   "-requests", 12, "-vetoes", "-leave"]))
         if prop in ("C06", "REL"):
             recs.append(("mixed", ["relay", "-seed", sd, "-runs", 150 if th else 40, "-plugins", 5, "-callers", 3,
                                    "-requests", 14, "-vetoes", "-leave"]))
